@@ -20,7 +20,7 @@ def plan(tier):
     if tier == 'quick':
         return [S('solo/hurry/login+drone/t30', 'login+drone', 30, [1], alpha.scen_hurry([1]), flags=FLAGS),
                 S('solo/hurry/drone/t0', 'drone', 0, [1], alpha.scen_hurry([1]), flags=FLAGS),
-                S('pair/tiny/login+drone/t30', 'login+drone', 30, [1, 2], alpha.tiny([1, 2]), flags=FLAGS)]
+                S('pair/tiny/ids-0-and-INT_MAX/t30', 'login+drone', 30, [0, 2147483647], alpha.tiny([0, 2147483647]), flags=FLAGS)]    # boundary ids incl. the legal id 0
     p = []
     for g in ('login+drone', 'drone', 'ipr+comb', 'all4', 'none'):
         for t in (30, 0):
